@@ -1053,6 +1053,14 @@ class Terms:
             # dict(a=x, b=y) is the display {"a": x, "b": y}
             return ("dict", tuple(("const", k) for k, _v in kws),
                     tuple(v for _k, v in kws))
+        if qual == "builtins.slice" and not kws and 1 <= len(args) <= 3 \
+                and not any(a[0] == "star" for a in args):
+            # slice(a, b) is the subscript a:b
+            none = ("const", None)
+            if len(args) == 1:
+                return ("slice", none, args[0], none)
+            return ("slice", args[0], args[1],
+                    args[2] if len(args) == 3 else none)
         if qual in EXTERNAL_SIGS:
             return self._canon_external(qual, args, kws)
         f = self.prog.funcs.get(qual)
